@@ -586,22 +586,29 @@ func c09CombinedCase(c *vf.Ctx, spec *gen.ProgSpec) {
 							}
 						})
 					}
-					guard(c, "file CopySampleData", "CopySampleData(a,b)", dab, func() {
-						var out bytes.Buffer
-						var err error
-						if path == 0 {
-							err = f.CopySampleData(&out, nil, trak, uint32(a), uint32(b), nil)
-						} else {
-							err = f.CopySampleData(&out, bytes.NewReader(pf.Bytes), trak, uint32(a), uint32(b), nil)
-						}
-						var want []byte
-						for i := a; i <= b; i++ {
-							want = append(want, pf.Data[ti][i-1]...)
-						}
-						if err != nil || !bytes.Equal(out.Bytes(), want) {
-							c.Fail("file CopySampleData", "copied sample data == bytes of samples a..b", map[string]interface{}{"case": dab(), "path": path, "err": fmt.Sprint(err), "got": vf.Hex(out.Bytes()), "want": vf.Hex(want)})
-						}
-					})
+					for _, wb := range []int{0, 1, 2, 3, 4, 6} { // work buffer sizes (nil for 0)
+						wb := wb
+						guard(c, "file CopySampleData", "CopySampleData(a,b)", dab, func() {
+							var out bytes.Buffer
+							var err error
+							var work []byte
+							if wb > 0 {
+								work = make([]byte, wb)
+							}
+							if path == 0 {
+								err = f.CopySampleData(&out, nil, trak, uint32(a), uint32(b), work)
+							} else {
+								err = f.CopySampleData(&out, bytes.NewReader(pf.Bytes), trak, uint32(a), uint32(b), work)
+							}
+							var want []byte
+							for i := a; i <= b; i++ {
+								want = append(want, pf.Data[ti][i-1]...)
+							}
+							if err != nil || !bytes.Equal(out.Bytes(), want) {
+								c.Fail("file CopySampleData", "copied sample data == bytes of samples a..b", map[string]interface{}{"case": dab(), "path": path, "work_buffer": wb, "err": fmt.Sprint(err), "got": vf.Hex(out.Bytes()), "want": vf.Hex(want)})
+							}
+						})
+					}
 				}
 			}
 		}
@@ -686,7 +693,7 @@ func runC09(c *vf.Ctx) {
 		maxN, combN = 9, 6
 		c.SetBudget(10 * 60 * 1e9)
 	}
-	c.Rule = "every run-length table of N samples: stts = all compositions of N x deltas {1,2,3,2^31,2^32-1} per run (+ final single zero duration); ctts v0/v1 = all compositions x offsets {0,1,2}/{0,1,-1} (+ a zero-count run at every position); stsc = all chunkings (compositions) x every run-length encoding of the chunking (canonical and redundant) x description ids {1,2} per entry; stsz uniform / all size vectors over {1,2,3,2^31,2^32-1}; stco/co64 boundary offsets; stss every subset; sdtp all 256 entry values. Tables are serialised by an independent raw writer, decoded by the library, and every query is asked for every sample number, every interval 1<=a<=b<=N and every time 0..total+1 and compared with the naive per-sample expansion. Combined queries (GetSampleData, GetRangesForSampleInterval, CopySampleData in memory and lazy) on generated files for all chunkings of N samples x 8 table variants x {1,2} tracks. A case = one table/file (distinct by construction)."
+	c.Rule = "every run-length table of N samples: stts = all compositions of N x deltas {1,2,3,2^31,2^32-1} per run (+ final single zero duration); ctts v0/v1 = all compositions x offsets {0,1,2}/{0,1,-1} (+ a zero-count run at every position); stsc = all chunkings (compositions) x every run-length encoding of the chunking (canonical and redundant) x description ids {1,2} per entry; stsz uniform / all size vectors over {1,2,3,2^31,2^32-1}; stco/co64 boundary offsets; stss every subset; sdtp all 256 entry values. Tables are serialised by an independent raw writer, decoded by the library, and every query is asked for every sample number, every interval 1<=a<=b<=N and every time 0..total+1 and compared with the naive per-sample expansion. Combined queries (GetSampleData, GetRangesForSampleInterval, CopySampleData in memory and lazy with work buffers of 0,1,2,3,4,6 bytes) on generated files for all chunkings of N samples x 8 table variants x {1,2} tracks. A case = one table/file (distinct by construction)."
 	c.Bound = fmt.Sprintf("single tables: N <= %d; combined: N <= %d", maxN, combN)
 	c09EnumStts(c, maxN)
 	c09EnumCtts(c, maxN)
